@@ -24,6 +24,11 @@ const (
 // reachUnder: is target reachable from start when branch conditions comparing `v` with a constant
 // are decided by assuming v == val (other branches: both ways)?
 func reachUnder(start *ssa.BasicBlock, target func(in ssa.Instruction) bool, v ssa.Value, val int64, stop func(in ssa.Instruction) bool) bool {
+	return reachUnderF(start, target, func(x ssa.Value) bool { return x == v }, val, stop)
+}
+
+// reachUnderF is reachUnder with the tested value given as a predicate (e.g. "a load of field F").
+func reachUnderF(start *ssa.BasicBlock, target func(in ssa.Instruction) bool, isV func(ssa.Value) bool, val int64, stop func(in ssa.Instruction) bool) bool {
 	seen := map[*ssa.BasicBlock]bool{}
 	var walk func(b *ssa.BasicBlock) bool
 	walk = func(b *ssa.BasicBlock) bool {
@@ -42,7 +47,6 @@ func reachUnder(start *ssa.BasicBlock, target func(in ssa.Instruction) bool, v s
 		ifi := blockIf(b)
 		for i, s := range b.Succs {
 			if ifi != nil {
-				isV := func(x ssa.Value) bool { return x == v }
 				decided := false
 				take := true
 				for _, k := range []int64{0, 1, 2, 3} {
